@@ -27,7 +27,7 @@ import (
 // scheduling points, the clean-up loop's sleep is a harness-owned tick.
 func TestVerifC16Pool(t *testing.T) {
 	L := ev.Begin("C16", "c16-pool", "model_checking",
-		"controlled scheduler over the real grpcConnectionPool (RWMutex, go statement and every statement of Get/Set/newConnection/cleanup are scheduling points; the clean-up loop runs one pass per harness tick): 2-3 calls obtain the connection of the same routed backend (cold pool and warm pool) while a clean-up pass runs, or of a plain and a TLS backend at the same time; every interleaving up to the preemption bound. oracle: the connection a call was given is not shut down while the call is in flight and the backend stays routed; afterwards the pool holds a usable connection for the backend")
+		"controlled scheduler over the real grpcConnectionPool (RWMutex, go statement and every statement of Get/Set/newConnection/cleanup are scheduling points; the clean-up loop runs one pass per harness tick): 2-3 calls obtain the connection of the same routed backend (cold pool and warm pool) while a clean-up pass runs, or of a plain and a TLS backend at the same time; every interleaving up to the preemption bound. oracle: the connection a call was given is not shut down while the call is in flight and the backend stays routed; afterwards the pool holds a usable connection for the backend and every open connection a call was given is that pooled one")
 	tb, err := route.NewTable(bytes.NewBufferString("route add svc /x grpc://127.0.0.1:1 opts \"proto=grpc\"\nroute add tls /y grpcs://127.0.0.1:2 opts \"proto=grpcs tlsskipverify=true\"\n"))
 	if err != nil {
 		panic(err)
@@ -111,6 +111,22 @@ func TestVerifC16Pool(t *testing.T) {
 			c, err := pool.Get(context.Background(), target)
 			if err != nil || c == nil || c.GetState() == connectivity.Shutdown {
 				x.Fail("pool-holds-no-usable-connection-afterwards", fmt.Sprint(err))
+			}
+			// one connection per backend: a connection a call was given but the pool does not keep can never be
+			// reused, and never be dropped when the backend leaves the table
+			for i := range conns {
+				tg := target
+				if mixed && i%2 == 1 {
+					tg = tlsTarget
+				}
+				kept, _ := pool.Get(context.Background(), tg)
+				if conns[i] != kept && conns[i].GetState() != connectivity.Shutdown {
+					x.Fail("call-given-a-connection-the-pool-does-not-keep", fmt.Sprintf("call %d of %d (cold pool=%v): its connection is open and not the pooled one", i, nCalls, !warm))
+					if kept != nil {
+						kept.Close()
+					}
+					break
+				}
 			}
 			for _, c := range conns {
 				if c != nil {
